@@ -3,7 +3,7 @@
 # properties whose check is currently red (a builder may be mid-edit), commits, and reports what was held back.
 cd "$(dirname "$0")/.."
 python3 tools/mkmanifest.py >/dev/null
-out=$(JOBS=${JOBS:-5} tools/run_all.sh 2>&1 | sort)
+out=$(LOGDIR=.build/logs-commit JOBS=${JOBS:-5} tools/run_all.sh 2>&1 | sort)
 echo "$out" | awk '{print $1,$2,$3,$4}' | tr '\n' ';'; echo
 red=$(echo "$out" | awk '$2!="exit=0" || $3!="0" {print $1}')
 python3 tools/merge_design.py >/dev/null; python3 tools/gen_design_tables.py >/dev/null
